@@ -346,7 +346,7 @@ def wholeBody (limit cl : Int) (body : Bytes) : Bool :=
   else if cl < 0 then decide ((body.length : Int) ≤ (if limit > 0 then limit else maxBytes))
   else false
 
-def runCsLine (r : Report) (sec : Nat) (cfg : CsCfg) (l : Line) : Report :=
+def runCsLine (r : Report) (sec : Nat) (cfg : CsCfg) (scb : String) (l : Line) : Report :=
   let fail (msg : String) := r.mismatch sec l.idx msg (joinSp l.op)
   match l.op with
   | "req" :: a =>
@@ -388,9 +388,16 @@ def runCsLine (r : Report) (sec : Nat) (cfg : CsCfg) (l : Line) : Report :=
       else
       let inner : Inner := fun _ => reply
       let hk := kvStr a "hk"
-      let m0 := applyOutcome hk (contentSecurity (oracleCipher table 0xEE) env cfg req inner)
-      let m1 := applyOutcome hk (contentSecurity (oracleCipher table 0xDD) env cfg req inner)
+      -- user UnsignedCallbacks replace the default one: a failed verification ends with them (200 when they write nothing)
+      let gate (C : BlockCipher) : Resp :=
+        if scb = "none" then contentSecurity C env cfg req inner
+        else contentSecurityWithCallbacks C env cfg req inner (if scb = "status" then 401 else 200)
+      let m0 := applyOutcome hk (gate (oracleCipher table 0xEE))
+      let m1 := applyOutcome hk (gate (oracleCipher table 0xDD))
       let r := { r with ops := r.ops + 1 }
+      let mScb : Nat := if scb = "none" ∨ !csVerificationFails env cfg req then 0 else if scb = "two" then 2 else 1
+      let r := if kvNat o "scb" 0 ≠ mScb then r.mismatch sec l.idx s!"scb={mScb}" s!"scb={kvNat o "scb" 0}" else r
+      let r := r.addCover s!"cs-unsigned-callback-{scb}-{if mScb = 0 then "not-called" else "called"}{if cfg.strict then "" else "-loose"}"
       let r := if m0.ran then r.addCover s!"cs-handler-outcome-{if hk = "" then "ok" else hk}" else r
       let hdrRes := parseContentSecurity env req
       let gated := gatedMethods.contains req.method
@@ -425,8 +432,9 @@ def runCsLine (r : Report) (sec : Nat) (cfg : CsCfg) (l : Line) : Report :=
       let r := if cfg.tol = 0 then r.addCover (if m0.ran then "cs-zero-tolerance-same-second-accepted" else "cs-zero-tolerance-rejected")
                else if cfg.tol < 0 then r.addCover (if m0.ran ∧ cfg.strict ∧ gated then "cs-negative-tolerance-ACCEPTED" else "cs-negative-tolerance-nothing-passes") else r
       let r := compareResp r sec l.idx m0 m1 obs
-      let r := match csMonitor env cfg req obs with
-        | some msg => r.violation sec l.idx s!"{msg} [{showResp obs}]"
+      -- with user callbacks the status of a refused request is theirs (not alarmed); that the handler does not run is checked
+      let r := match (if scb = "none" ∨ obs.ran then csMonitor env cfg req obs else none) with
+        | some msg => r.violation sec l.idx s!"{msg} [{showResp obs}]{if scb = "none" then "" else s!" [user callbacks: {scb}]"}"
         | none => r
       let r := match csBodyMonitor env cfg req obs with
         | some msg => r.violation sec l.idx s!"{msg} [{showResp obs}]"
@@ -783,7 +791,7 @@ def runSection (r : Report) (s : Section) : Report :=
     let cfg : CsCfg := { strict := kvNat s.cfg "strict" 1 = 1, tol := kvInt s.cfg "tol" 60,
                          limit := if plain then maxBytes else kvInt s.cfg "limit" 1048576 }
     let r := r.addCover (if plain then "cs-constructor-ContentSecurityHandler" else "cs-constructor-LimitContentSecurityHandler")
-    s.lines.foldl (fun acc l => runCsLine acc s.idx cfg l) r
+    s.lines.foldl (fun acc l => runCsLine acc s.idx cfg (kvStr s.cfg "scb" "none") l) r
   | some "crypt" =>
     let plain := kvStr s.cfg "ctor" "limit" = "plain"
     let r := r.addCover (if plain then "crypt-constructor-CryptionHandler" else "crypt-constructor-LimitCryptionHandler")
